@@ -166,11 +166,14 @@ def rtb_case(draw, name, n=None):
             kw["update_bounds"] = False
             can_update = False
         elif sel == "inv":
-            ikw, _ = _inversion_kwargs(draw, params)
+            ikw, inv = _inversion_kwargs(draw, params)
             kw.update(ikw)
             kw["inversion_type"] = draw(st.sampled_from(["split", "duplicate"]))
             kw["detect_edges"] = draw(st.booleans())
-            kw.pop("rescale_bounds", None)
+            if len(inv) == len(params):
+                kw.pop("rescale_bounds", None)
+            # (inversion for a subset only: the other parameters keep the
+            # rescale bounds they were given)
             has_inv = True
     elif kind == "inv":
         if _maybe(draw):
